@@ -292,7 +292,10 @@ pub fn manifest_tree(adef: &Value, no_null: bool) -> Result<M, String> {
         None | Some(Value::Null) => {}
         Some(Value::Object(cfg)) => {
             if !cfg.is_empty() {
-                top.push(("config".to_string(), M::Map(cfg.iter().map(|(k, v)| (k.clone(), if k.ends_with("_access") { m_access(v) } else { generic(v) })).collect())));
+                let mut cm: Vec<(String, M)> = cfg.iter().filter(|(k, _)| !k.starts_with("x_"))
+                    .map(|(k, v)| (k.clone(), if k.ends_with("_access") { m_access(v) } else { generic(v) })).collect();
+                apply_x(&mut cm, &Value::Object(cfg.clone()));
+                top.push(("config".to_string(), M::Map(cm)));
             }
         }
         Some(other) => return Err(format!("\"config\" must be an object, got {}", brief(other))),
@@ -319,6 +322,37 @@ pub fn manifest_tree(adef: &Value, no_null: bool) -> Result<M, String> {
     Ok(M::Map(top))
 }
 
+/// Malformed-manifest hooks (manifest syntaxes only; GEN_PROTOCOL.md §1.1): any config / object / field /
+/// override / repeat map of an ADEF may carry `x_omit: [key…]` (keys left out of the rendered map, `type`
+/// included), `x_retype: {key: value}` (the value written for a key, whatever its type) and
+/// `x_extra: [[key, value]…]` (additional entries; scalar ones go in front of the first map-valued entry,
+/// map-valued ones to the end, which keeps the TOML emitter's "scalars before tables" order).
+fn apply_x(out: &mut Vec<(String, M)>, o: &Value) {
+    if let Some(Value::Array(om)) = o.get("x_omit") {
+        out.retain(|(k, _)| !om.iter().any(|x| x.as_str() == Some(k.as_str())));
+    }
+    if let Some(Value::Object(rt)) = o.get("x_retype") {
+        for (k, v) in out.iter_mut() {
+            if let Some(nv) = rt.get(k.as_str()) {
+                *v = generic(nv);
+            }
+        }
+    }
+    if let Some(Value::Array(ex)) = o.get("x_extra") {
+        for e in ex {
+            if let (Some(k), Some(v)) = (e.get(0).and_then(Value::as_str), e.get(1)) {
+                let m = generic(v);
+                if matches!(m, M::Map(_)) {
+                    out.push((k.to_string(), m));
+                } else {
+                    let at = out.iter().position(|(_, x)| matches!(x, M::Map(_))).unwrap_or(out.len());
+                    out.insert(at, (k.to_string(), m));
+                }
+            }
+        }
+    }
+}
+
 fn put(out: &mut Vec<(String, M)>, o: &Value, adef_key: &str, manifest_key: &str, f: impl Fn(&Value) -> M) {
     if let Some(v) = o.get(adef_key) {
         out.push((manifest_key.to_string(), f(v)));
@@ -331,6 +365,7 @@ fn m_repeat(v: &Value) -> M {
             let mut out = Vec::new();
             put(&mut out, v, "count", "count", m_int);
             put(&mut out, v, "stride", "stride", m_int);
+            apply_x(&mut out, v);
             M::Map(out)
         }
         other => generic(other),
@@ -379,6 +414,7 @@ fn m_field(f: &Value, no_null: bool) -> Result<M, String> {
             return Err(format!("conversion needs \"type\" or \"enum\": {}", brief(conv)));
         }
     }
+    apply_x(&mut out, f);
     Ok(M::Map(out))
 }
 
@@ -457,6 +493,7 @@ fn m_override(ov: &Value, no_null: bool) -> Result<M, String> {
         illegal.iter().map(|k| (k.clone(), illegal_manifest(k))).partition(|(_, v)| matches!(v, M::Map(_)));
     out.extend(scalars);
     out.extend(maps);
+    apply_x(&mut out, ov);
     Ok(M::Map(out))
 }
 
@@ -522,6 +559,7 @@ fn m_object(o: &Value, no_null: bool, depth: usize) -> Result<M, String> {
         }
         _ => {}
     }
+    apply_x(&mut out, o);
     Ok(M::Map(out))
 }
 
